@@ -244,6 +244,22 @@ PROBE = np.array([[0.3, -0.2, 0.5], [-0.7, 0.9, 0.1], [1.5, 0.4, -0.6], [2.1, 1.
                   [3.9, 3.5, 4.4], [0.9, 2.2, 1.0], [2.8, 0.3, 1.9], [1.0, 1.0, 1.0]])
 
 
+def correction_named(msg):
+    """Which correction a LoadWarning names (by the program it mentions, not by the wording of the sentence)."""
+    low = msg.lower()
+    if "orca" in low:
+        return "ORCA"
+    if "psi4" in low:
+        return "PSI4 <= 1.3.2" if "1.3" in low else "PSI4 < 1.0"
+    if "turbomole" in low:
+        return "Turbomole"
+    if "cfour" in low:
+        return "CFOUR 2.1"
+    if "normaliz" in low and "contraction" in low:
+        return "unnormalized contractions"
+    return None
+
+
 def vendor_case(task):
     vendor, tnames, fmt, unit, unres, thr, seed, corrupt = task[:8]
     mo_digits = task[8] if len(task) > 8 else None     # orbital coefficients printed with few decimals (as many programs do)
@@ -293,9 +309,9 @@ def vendor_case(task):
         names = []
         for w in wl:
             if issubclass(w.category, LoadWarning):
-                m = re.search(r"Corrected for (?:typical )?(.*?) (?:errors )?in Molden/MKL file", str(w.message))
-                if m:
-                    names.append(m.group(1).replace(" errors", ""))
+                nm = correction_named(str(w.message))
+                if nm:
+                    names.append(nm)
         ev["warning"] = names[0] if names else "none"
         if len(names) > 1:
             ev["warning"] = "several:" + ",".join(names)
